@@ -7,6 +7,8 @@
 use highway::{HighwayBuildHasher, HighwayHash, HighwayHasher, Key, PortableHash};
 #[cfg(target_arch = "x86_64")]
 use highway::{AvxHash, SseHash};
+#[cfg(target_arch = "aarch64")]
+use highway::NeonHash;
 use std::alloc::{GlobalAlloc, Layout, System};
 use std::cell::Cell;
 use std::collections::HashMap;
@@ -64,6 +66,15 @@ struct Mapping {
 }
 impl Mapping {
     /// `pages` accessible pages with one PROT_NONE page on each side
+    #[cfg(miri)]
+    fn new(pages: usize) -> Mapping {
+        // Miri has no mmap/mprotect; it checks every access against the allocation anyway
+        let len = (pages + 2) * PAGE;
+        let layout = Layout::from_size_align(len, PAGE).unwrap();
+        let base = unsafe { System.alloc_zeroed(layout) };
+        Mapping { base, len }
+    }
+    #[cfg(not(miri))]
     fn new(pages: usize) -> Mapping {
         unsafe {
             let len = (pages + 2) * PAGE;
@@ -94,8 +105,13 @@ impl Mapping {
 }
 impl Drop for Mapping {
     fn drop(&mut self) {
+        #[cfg(not(miri))]
         unsafe {
             libc::munmap(self.base as *mut _, self.len);
+        }
+        #[cfg(miri)]
+        unsafe {
+            System.dealloc(self.base, Layout::from_size_align(self.len, PAGE).unwrap());
         }
     }
 }
@@ -225,107 +241,149 @@ trait Ops {
     fn tagc(&self) -> char;
 }
 
-#[cfg(feature = "hw-std")]
-trait MaybeWrite: std::io::Write {}
-#[cfg(feature = "hw-std")]
-impl<T: std::io::Write> MaybeWrite for T {}
-#[cfg(not(feature = "hw-std"))]
-trait MaybeWrite {}
-#[cfg(not(feature = "hw-std"))]
-impl<T> MaybeWrite for T {}
-
-impl<T: HighwayHash + Clone + Debug + Hasher + MaybeWrite + 'static> Ops for Holder<T> {
-    fn append(&mut self, d: &[u8]) {
-        let t = self.get_mut();
-        lib(|| HighwayHash::append(t, d))
-    }
-    fn io_write(&mut self, _d: &[u8]) -> Option<Result<usize, ()>> {
-        #[cfg(feature = "hw-std")]
-        {
+macro_rules! ops_common {
+    () => {
+        fn append(&mut self, d: &[u8]) {
             let t = self.get_mut();
-            Some(lib(|| std::io::Write::write(t, _d)).map_err(|_| ()))
+            lib(|| HighwayHash::append(t, d))
         }
-        #[cfg(not(feature = "hw-std"))]
-        None
-    }
-    fn io_write_all(&mut self, _d: &[u8]) -> Option<bool> {
-        #[cfg(feature = "hw-std")]
-        {
+        fn ckpt(&self) -> [u8; 164] {
+            let t = self.get();
+            lib(|| HighwayHash::checkpoint(t))
+        }
+        fn clone_box(&self) -> Box<dyn Ops> {
+            let t = self.get();
+            let c = lib(|| t.clone());
+            Box::new(Holder { loc: Loc::Owned(c), tagc: self.tagc })
+        }
+        fn debug(&self, sink: &mut StackSink) -> bool {
+            let t = self.get();
+            lib(|| write!(sink, "{:?}", t)).is_ok()
+        }
+        fn fin64(self: Box<Self>) -> u64 {
+            let t = self.into_inner();
+            lib(|| t.finalize64())
+        }
+        fn fin128(self: Box<Self>) -> [u64; 2] {
+            let t = self.into_inner();
+            lib(|| t.finalize128())
+        }
+        fn fin256(self: Box<Self>) -> [u64; 4] {
+            let t = self.into_inner();
+            lib(|| t.finalize256())
+        }
+        fn hash64(self: Box<Self>, d: &[u8]) -> u64 {
+            let t = self.into_inner();
+            lib(|| t.hash64(d))
+        }
+        fn hash128(self: Box<Self>, d: &[u8]) -> [u64; 2] {
+            let t = self.into_inner();
+            lib(|| t.hash128(d))
+        }
+        fn hash256(self: Box<Self>, d: &[u8]) -> [u64; 4] {
+            let t = self.into_inner();
+            lib(|| t.hash256(d))
+        }
+        fn tagc(&self) -> char {
+            self.tagc
+        }
+    };
+}
+macro_rules! ops_adapters {
+    () => {
+        fn io_write(&mut self, _d: &[u8]) -> Option<Result<usize, ()>> {
+            #[cfg(feature = "hw-std")]
+            {
+                let t = self.get_mut();
+                Some(lib(|| std::io::Write::write(t, _d)).map_err(|_| ()))
+            }
+            #[cfg(not(feature = "hw-std"))]
+            None
+        }
+        fn io_write_all(&mut self, _d: &[u8]) -> Option<bool> {
+            #[cfg(feature = "hw-std")]
+            {
+                let t = self.get_mut();
+                Some(lib(|| std::io::Write::write_all(t, _d)).is_ok())
+            }
+            #[cfg(not(feature = "hw-std"))]
+            None
+        }
+        fn io_copy(&mut self, _d: &[u8]) -> Option<Result<u64, ()>> {
+            #[cfg(feature = "hw-std")]
+            {
+                let t = self.get_mut();
+                let mut rd = _d;
+                // allocations inside std::io::copy are std's, not the library's: the counter is not armed
+                Some(std::io::copy(&mut rd, t).map_err(|_| ()))
+            }
+            #[cfg(not(feature = "hw-std"))]
+            None
+        }
+        fn io_flush(&mut self) -> Option<bool> {
+            #[cfg(feature = "hw-std")]
+            {
+                let t = self.get_mut();
+                Some(lib(|| std::io::Write::flush(t)).is_ok())
+            }
+            #[cfg(not(feature = "hw-std"))]
+            None
+        }
+        fn h_write(&mut self, d: &[u8]) {
             let t = self.get_mut();
-            Some(lib(|| std::io::Write::write_all(t, _d)).is_ok())
+            lib(|| Hasher::write(t, d))
         }
-        #[cfg(not(feature = "hw-std"))]
-        None
-    }
-    fn io_copy(&mut self, _d: &[u8]) -> Option<Result<u64, ()>> {
-        #[cfg(feature = "hw-std")]
-        {
-            let t = self.get_mut();
-            let mut rd = _d;
-            // io::copy may use its own stack buffer; allocations inside std::io::copy are std's,
-            // not the library's, so the counter is not armed around the whole call.
-            Some(std::io::copy(&mut rd, t).map_err(|_| ()))
+        fn h_finish(&self) -> u64 {
+            let t = self.get();
+            lib(|| Hasher::finish(t))
         }
-        #[cfg(not(feature = "hw-std"))]
-        None
-    }
-    fn io_flush(&mut self) -> Option<bool> {
-        #[cfg(feature = "hw-std")]
-        {
-            let t = self.get_mut();
-            Some(lib(|| std::io::Write::flush(t)).is_ok())
+    };
+}
+// NeonHash implements neither core::hash::Hasher nor io::Write (no impl_write!/impl_hasher! in aarch64.rs)
+macro_rules! ops_no_adapters {
+    () => {
+        fn io_write(&mut self, _d: &[u8]) -> Option<Result<usize, ()>> {
+            None
         }
-        #[cfg(not(feature = "hw-std"))]
-        None
-    }
-    fn h_write(&mut self, d: &[u8]) {
-        let t = self.get_mut();
-        lib(|| Hasher::write(t, d))
-    }
-    fn h_finish(&self) -> u64 {
-        let t = self.get();
-        lib(|| Hasher::finish(t))
-    }
-    fn ckpt(&self) -> [u8; 164] {
-        let t = self.get();
-        lib(|| HighwayHash::checkpoint(t))
-    }
-    fn clone_box(&self) -> Box<dyn Ops> {
-        let t = self.get();
-        let c = lib(|| t.clone());
-        Box::new(Holder { loc: Loc::Owned(c), tagc: self.tagc })
-    }
-    fn debug(&self, sink: &mut StackSink) -> bool {
-        let t = self.get();
-        lib(|| write!(sink, "{:?}", t)).is_ok()
-    }
-    fn fin64(self: Box<Self>) -> u64 {
-        let t = self.into_inner();
-        lib(|| t.finalize64())
-    }
-    fn fin128(self: Box<Self>) -> [u64; 2] {
-        let t = self.into_inner();
-        lib(|| t.finalize128())
-    }
-    fn fin256(self: Box<Self>) -> [u64; 4] {
-        let t = self.into_inner();
-        lib(|| t.finalize256())
-    }
-    fn hash64(self: Box<Self>, d: &[u8]) -> u64 {
-        let t = self.into_inner();
-        lib(|| t.hash64(d))
-    }
-    fn hash128(self: Box<Self>, d: &[u8]) -> [u64; 2] {
-        let t = self.into_inner();
-        lib(|| t.hash128(d))
-    }
-    fn hash256(self: Box<Self>, d: &[u8]) -> [u64; 4] {
-        let t = self.into_inner();
-        lib(|| t.hash256(d))
-    }
-    fn tagc(&self) -> char {
-        self.tagc
-    }
+        fn io_write_all(&mut self, _d: &[u8]) -> Option<bool> {
+            None
+        }
+        fn io_copy(&mut self, _d: &[u8]) -> Option<Result<u64, ()>> {
+            None
+        }
+        fn io_flush(&mut self) -> Option<bool> {
+            None
+        }
+        fn h_write(&mut self, _d: &[u8]) {
+            panic!("script: this hasher type does not implement Hasher")
+        }
+        fn h_finish(&self) -> u64 {
+            panic!("script: this hasher type does not implement Hasher")
+        }
+    };
+}
+impl Ops for Holder<PortableHash> {
+    ops_common!();
+    ops_adapters!();
+}
+impl Ops for Holder<HighwayHasher> {
+    ops_common!();
+    ops_adapters!();
+}
+#[cfg(target_arch = "x86_64")]
+impl Ops for Holder<SseHash> {
+    ops_common!();
+    ops_adapters!();
+}
+#[cfg(target_arch = "x86_64")]
+impl Ops for Holder<AvxHash> {
+    ops_common!();
+    ops_adapters!();
+}
+#[cfg(target_arch = "aarch64")]
+impl Ops for Holder<NeonHash> {
+    ops_common!();
+    ops_no_adapters!();
 }
 
 /// records the exact write stream std's Hash impls produce
@@ -439,6 +497,12 @@ fn construct(
                 o.map(|h| Box::new(Holder::make('A', hp, move || h)) as Box<dyn Ops>)
             }
         }
+        #[cfg(target_arch = "aarch64")]
+        "N" => Some(Box::new(Holder::make('N', hp, || match (&restore, key) {
+            (Some((c, _)), _) => unsafe { NeonHash::force_from_checkpoint(*c) },
+            (None, Some(k)) => unsafe { NeonHash::force_new(k) },
+            (None, None) => NeonHash::default(),
+        }))),
         _ => panic!("script: unknown backend {}", backend),
     }
 }
